@@ -35,8 +35,12 @@ Ops == OutOps \cup InOps
 Mixes == { S \in SUBSET Ops : Cardinality(S) >= 1 /\ Cardinality(S) <= MaxMix } \cup {Ops}
 NoOp == "-"
 Stress == [mode : {"stress"}, ops : Mixes, shared : BOOLEAN, a : {NoOp}, gate : {NoOp}, b : {NoOp}]
+\* cold: all operations, from goroutines released together, as the FIRST calls into the library in a fresh process
+\* (several processes in a row): whatever the library initialises lazily at package level is initialised under
+\* contention
+Cold == [mode : {"cold"}, ops : {Ops}, shared : BOOLEAN, a : {NoOp}, gate : {NoOp}, b : {NoOp}]
 Parked == [mode : {"parked"}, ops : {{}}, shared : {TRUE}, a : ScOps, gate : Gates, b : Ops]
-Inputs == Stress \cup Parked
+Inputs == Stress \cup Parked \cup Cold
 Cfgs == [x : {0}]
 
 \* which properties an operation's result belongs to besides C17
@@ -46,7 +50,7 @@ Posts      == {"postAuthn", "postLogoutResp"}
 SignedDocs == {"authnDoc", "logoutReqDoc", "logoutRespDoc"}
 Decrypting == {"validateEnc"}
 
-Involved(in) == IF in.mode = "stress" THEN in.ops ELSE {in.a, in.b}
+Involved(in) == IF in.mode = "parked" THEN {in.a, in.b} ELSE in.ops
 
 \* the model: every call returns its own result; a parked call reaches its gate (a fresh provider's first signing
 \* call passes both the read-locked look-up and the creation path)
